@@ -742,6 +742,220 @@ func c16Round4(s *source, e *emitter, t *translator) {
 	e.c16StmtList(s, ca, "NewCache", "newCacheStmts")
 }
 
+// ---------------------------------------------------------------- round 5
+
+// c16Effects emits the calls of a function in source order as a typed list `List (String × String × List String)`:
+// (kind, callee, argument texts); kind = "call" | "defer" | "go".  A function literal handed to a call is printed as
+// `func` in the argument list and its body follows (it is part of the path: the closure of barrier.Do, the callback of
+// NewTimingWheel, the option closure WithLimit returns).
+func (e *emitter) c16Effects(s *source, rel, goName, leanName string) {
+	fd := s.findFunc(rel, goName)
+	if fd == nil {
+		e.c16Fail(leanName, "function "+goName+" not found in "+rel)
+		return
+	}
+	type eff struct {
+		kind, callee string
+		args         []string
+	}
+	var out []eff
+	txt := func(x ast.Expr) string {
+		if _, ok := x.(*ast.FuncLit); ok {
+			return "func"
+		}
+		return strings.Join(strings.Fields(s.src(x)), " ")
+	}
+	var visit func(n ast.Node, kind string)
+	visit = func(n ast.Node, kind string) {
+		ast.Inspect(n, func(nd ast.Node) bool {
+			switch x := nd.(type) {
+			case *ast.DeferStmt:
+				visit(x.Call, "defer")
+				return false
+			case *ast.GoStmt:
+				visit(x.Call, "go")
+				return false
+			case *ast.CallExpr:
+				callee := txt(x.Fun)
+				switch callee {
+				case "make", "len", "panic", "delete", "append", "int", "new":
+					return true
+				}
+				var args []string
+				for _, a := range x.Args {
+					args = append(args, txt(a))
+				}
+				out = append(out, eff{kind, callee, args})
+				kind = "call"
+				// the closure handed to barrier.Do / NewTimingWheel is part of the path: descend into it
+				for _, a := range x.Args {
+					if fl, ok := a.(*ast.FuncLit); ok {
+						visit(fl.Body, "call")
+					} else {
+						visit(a, "call")
+					}
+				}
+				return false
+			}
+			return true
+		})
+	}
+	visit(fd.Body, "call")
+	e.printf("/-- calls of `%s` in %s, in source order: (kind, callee, arguments) -/\ndef %s : List (String × String × List String) := [\n", goName, rel, leanName)
+	for i, x := range out {
+		var as []string
+		for _, a := range x.args {
+			as = append(as, leanString(a))
+		}
+		sep := ","
+		if i == len(out)-1 {
+			sep = ""
+		}
+		e.printf("  (%s, %s, [%s])%s\n", leanString(x.kind), leanString(x.callee), strings.Join(as, ", "), sep)
+	}
+	e.printf("]\n\n")
+}
+
+// c16RangeLoops: for every `for k, v := range X { if !f(k, v) { <exit> } }` of the function, (X, exit) with
+// exit = "return" | "break" | "continue" | "other"
+func (e *emitter) c16RangeLoops(s *source, rel, goName, leanName string) {
+	fd := s.findFunc(rel, goName)
+	if fd == nil {
+		e.c16Fail(leanName, "function "+goName+" not found in "+rel)
+		return
+	}
+	var out []string
+	for _, st := range fd.Body.List {
+		rs, ok := st.(*ast.RangeStmt)
+		if !ok {
+			continue
+		}
+		exit := "other"
+		if len(rs.Body.List) == 1 {
+			if is, ok := rs.Body.List[0].(*ast.IfStmt); ok && is.Else == nil && len(is.Body.List) == 1 {
+				cond := strings.Join(strings.Fields(s.src(is.Cond)), " ")
+				switch b := is.Body.List[0].(type) {
+				case *ast.ReturnStmt:
+					exit = "return"
+				case *ast.BranchStmt:
+					exit = b.Tok.String()
+				}
+				exit = "if " + cond + " " + exit
+			}
+		}
+		out = append(out, fmt.Sprintf("(%s, %s)", leanString(strings.Join(strings.Fields(s.src(rs.X)), " ")), leanString(exit)))
+	}
+	e.printf("/-- the range loops of `%s` in %s: (collection, how the loop reacts to the callback) -/\ndef %s : List (String × String) := [%s]\n\n", goName, rel, leanName, strings.Join(out, ", "))
+}
+
+// c16IfCondIn: the condition of the n-th if statement inside the first function literal of the function
+func c16IfCondInLit(n int) func(fd *ast.FuncDecl) ast.Expr {
+	return func(fd *ast.FuncDecl) ast.Expr {
+		var lit *ast.FuncLit
+		ast.Inspect(fd.Body, func(nd ast.Node) bool {
+			if fl, ok := nd.(*ast.FuncLit); ok && lit == nil {
+				lit = fl
+			}
+			return lit == nil
+		})
+		if lit == nil {
+			return nil
+		}
+		var found ast.Expr
+		i := 0
+		ast.Inspect(lit.Body, func(nd ast.Node) bool {
+			if is, ok := nd.(*ast.IfStmt); ok {
+				if i == n && found == nil {
+					found = is.Cond
+				}
+				i++
+			}
+			return true
+		})
+		return found
+	}
+}
+
+// c16IndexOfCall: the (first) argument expression number `arg` of the first call of `callee` in the function
+func c16ArgOfCall(s *source, callee string, arg int) func(fd *ast.FuncDecl) ast.Expr {
+	return func(fd *ast.FuncDecl) ast.Expr {
+		var found ast.Expr
+		ast.Inspect(fd.Body, func(nd ast.Node) bool {
+			if c, ok := nd.(*ast.CallExpr); ok && found == nil {
+				if strings.Join(strings.Fields(s.src(c.Fun)), "") == callee && arg < len(c.Args) {
+					found = c.Args[arg]
+				}
+			}
+			return found == nil
+		})
+		return found
+	}
+}
+
+// c16IndexExpr: the index expression of the first `x[...]` in the function body
+func c16FirstIndex(fd *ast.FuncDecl) ast.Expr {
+	var found ast.Expr
+	ast.Inspect(fd.Body, func(nd ast.Node) bool {
+		if ix, ok := nd.(*ast.IndexExpr); ok && found == nil {
+			found = ix.Index
+		}
+		return found == nil
+	})
+	return found
+}
+
+func c16FirstForCond(fd *ast.FuncDecl) ast.Expr {
+	var found ast.Expr
+	ast.Inspect(fd.Body, func(nd ast.Node) bool {
+		if fs, ok := nd.(*ast.ForStmt); ok && found == nil {
+			found = fs.Cond
+		}
+		return found == nil
+	})
+	return found
+}
+
+func c16Round5(s *source, e *emitter, t *translator) {
+	const (
+		sm = "core/collection/safemap.go"
+		rw = "core/collection/rollingwindow.go"
+		ca = "core/collection/cache.go"
+		ff = "core/collection/fifo.go"
+		rg = "core/collection/ring.go"
+	)
+	e.printf("/-! ### round 5: constructor guards, bucket slots, typed call lists (order of effects, forwarded arguments), loop exits -/\n\n")
+	e.constDef(s, ca, "defaultCacheName", "defaultCacheName")
+	// guards
+	e.c16Expr(t, s, rw, "NewRollingWindow", "newRollingWindowGuard", true, c16IfCond(0))
+	e.c16Expr(t, s, ca, "Cache.Take", "cacheTakeLoaderErrCond", true, c16IfCondInLit(1))
+	e.c16Expr(t, s, ca, "NewCache", "newCacheNameDefaultCond", true, c16IfCond(0))
+	// bucket slots and loop bounds of the window
+	e.c16Expr(t, s, rw, "window.add", "winAddSlot", false, c16FirstIndex)
+	e.c16Expr(t, s, rw, "window.resetBucket", "winResetSlot", false, c16FirstIndex)
+	e.c16Expr(t, s, rw, "window.reduce", "winReduceSlot", false, c16FirstIndex)
+	e.c16Expr(t, s, rw, "window.reduce", "winReduceLoopCond", true, c16FirstForCond)
+	e.c16Expr(t, s, rw, "newWindow", "newWindowLoopCond", true, c16FirstForCond)
+	e.c16Expr(t, s, rw, "RollingWindow.updateOffset", "rwResetLoopCond", true, c16FirstForCond)
+	e.c16Expr(t, s, rw, "RollingWindow.updateOffset", "rwResetIndex", false, c16ArgOfCall(s, "rw.win.resetBucket", 0))
+	// loop exits of Range
+	e.c16RangeLoops(s, sm, "SafeMap.Range", "safeMapRangeLoops")
+	// typed call lists: order of effects (lock / defer / call) and the arguments forwarded by delegating entry points
+	for _, f := range [][3]string{
+		{ca, "Cache.Set", "cacheSetCalls"}, {ca, "Cache.Get", "cacheGetCalls"}, {ca, "Cache.Del", "cacheDelCalls"},
+		{ca, "Cache.SetWithExpire", "cacheSetWithExpireCalls"}, {ca, "Cache.Take", "cacheTakeCalls"},
+		{ca, "Cache.doGet", "cacheDoGetCalls"}, {ca, "Cache.onEvict", "cacheOnEvictCalls"}, {ca, "Cache.size", "cacheSizeCalls"},
+		{ca, "NewCache", "newCacheCalls"}, {ca, "WithLimit", "withLimitCalls"}, {ca, "newCacheStat", "newCacheStatCalls"},
+		{ca, "keyLru.add", "lruAddCalls"}, {ca, "keyLru.remove", "lruRemoveCalls"}, {ca, "keyLru.removeOldest", "lruRemoveOldestCalls"},
+		{ca, "keyLru.removeElement", "lruRemoveElementCalls"},
+		{rw, "NewRollingWindow", "newRollingWindowCalls"}, {rw, "RollingWindow.Add", "rwAddCalls"},
+		{rw, "RollingWindow.Reduce", "rwReduceCalls"}, {rw, "RollingWindow.updateOffset", "rwUpdateCalls"},
+		{sm, "SafeMap.Range", "safeMapRangeCalls"}, {sm, "SafeMap.Get", "safeMapGetCalls"}, {sm, "SafeMap.Size", "safeMapSizeCalls"},
+		{ff, "Queue.Empty", "queueEmptyCalls"}, {rg, "Ring.Take", "ringTakeCalls"},
+	} {
+		e.c16Effects(s, f[0], f[1], f[2])
+	}
+}
+
 func init() {
 	register("C16", func(s *source, e *emitter) {
 		const (
@@ -846,5 +1060,6 @@ func init() {
 			e.errors = append(e.errors, "function NewCache not found in "+ca)
 		}
 		c16Round4(s, e, t)
+		c16Round5(s, e, t)
 	})
 }
